@@ -8,20 +8,22 @@ Model: `Varpulis.Filter` (Model/Filter.lean). `whereAccepts e ev` mirrors `Runti
 
     ∀ e ev, whereAccepts e ev = stepAccepts e ev
 
-is **false** of the unchanged code (`where_step_agree_counterexample`, five minimal witnesses, one
-per way the two evaluators differ). What holds is `where_step_agree_partial`: agreement on every
-event for every expression outside three explicit, decidable situations (`Finding`):
+is **false** of the code (`where_step_agree_counterexample`, four minimal witnesses). What holds is
+`where_step_agree_partial`: agreement on every event for every expression outside two explicit,
+decidable situations (`Finding`):
 
 * `eqEpsilon`   — `field == lit` / `field != lit` where exact `Value` equality and the step's
                   `|a − b| < ε` equality with int/float mixing give different answers;
-* `stringOrder` — `field < lit` (or `<=`,`>`,`>=`) on two strings;
 * `errorOperand`— an operand of `or` / `not` without a boolean value in the VPL evaluator
                   (missing field, incomparable types, non-boolean operand).
+
+A third difference — ordering comparisons of two strings had no value in `.where` — was repaired by
+a `fix:` commit (`string_order_defect_witness`); mixed int/float `<=`/`>=` by the C08 repairs.
 -/
 namespace Varpulis.Props.C09
 open Varpulis.Val Varpulis.Filter
 
-/-- **partial**: outside the three listed situations the two contexts select the same events —
+/-- **partial**: outside the two listed situations the two contexts select the same events —
 for every expression of the fragment (any depth, any number of fields) and every event (any field
 values, any fields missing). `agreeGuard e ev = (whyWeak e ev).isNone`. -/
 theorem where_step_agree_partial (e : FExpr) (ev : Event) (h : agreeGuard e ev = true) :
@@ -41,12 +43,11 @@ theorem eq_case_table (x : Value) (l : Lit) (v : Value) (hl : l.compareValue = s
     (hs : eqSafe x v = true) : veq x v = valuesEqual x v :=
   veq_eq_valuesEqual x v (compareValue_kind hl) hs
 
-/-- case table behind the `stringOrder` guard: an ordering comparison of a field with a literal is
-accepted by both contexts or by neither unless both are strings — numeric pairs (mixed included)
-compute the same order, every other pair is rejected by both -/
+/-- ordering comparisons of a field with a literal need no guard at all: numeric pairs (mixed
+included) and string pairs compute the same order in both contexts, every other pair is rejected
+by both -/
 theorem order_case_table (op : CmpOp) (x : Value) (l : Lit) (v : Value) (hl : l.compareValue = some v)
-    (hop : op ≠ .eq ∧ op ≠ .ne) (hs : (isStr x && isStr v) = false) :
-    isTrue (evalCmp op x v) = compareValues x v op := by
+    (hop : op ≠ .eq ∧ op ≠ .ne) : isTrue (evalCmp op x v) = compareValues x v op := by
   apply cmp_weak op x v (compareValue_kind hl)
   cases op <;> simp_all [whyCmpWeak]
 
@@ -77,9 +78,11 @@ theorem witness_eq_epsilon :
     ∧ stepAccepts (.cmp .eq (.field "x") (.lit (.float ⟨0x3fe0000000000000⟩))) [("x", .float ⟨0x3fe0000000000001⟩)] = true := by
   decide +kernel
 
-/-- `name < "m"` on `name = "a"`: no result in `.where` (dropped), `true` in the step -/
-theorem witness_string_order :
-    whereAccepts (.cmp .lt (.field "name") (.lit (.str "m"))) [("name", .str "a")] = false
+/-- the defect repaired by the `fix:` commit in evaluator.rs: `name < "m"` on `name = "a"` had no
+value in `.where` (event dropped) while the step compared the strings; now both say `true` -/
+theorem string_order_defect_witness :
+    evalCmpOld .lt (.str "a") (.str "m") = none
+    ∧ whereAccepts (.cmp .lt (.field "name") (.lit (.str "m"))) [("name", .str "a")] = true
     ∧ stepAccepts (.cmp .lt (.field "name") (.lit (.str "m"))) [("name", .str "a")] = true := by
   decide +kernel
 
@@ -106,7 +109,6 @@ theorem where_step_agree_counterexample : ¬ ∀ (e : FExpr) (ev : Event), where
 theorem witnesses_classified :
     whyWeak (.cmp .eq (.field "x") (.lit (.int 1))) [("x", .float ⟨0x3ff0000000000000⟩)] = some .eqEpsilon
     ∧ whyWeak (.cmp .eq (.field "x") (.lit (.float ⟨0x3fe0000000000000⟩))) [("x", .float ⟨0x3fe0000000000001⟩)] = some .eqEpsilon
-    ∧ whyWeak (.cmp .lt (.field "name") (.lit (.str "m"))) [("name", .str "a")] = some .stringOrder
     ∧ whyWeak (.not (.cmp .gt (.field "x") (.lit (.int 1)))) [] = some .errorOperand
     ∧ whyWeak (.or (.cmp .gt (.field "x") (.lit (.int 1))) (.cmp .gt (.field "y") (.lit (.int 1)))) [("y", .int 5)] = some .errorOperand := by
   decide +kernel
